@@ -683,6 +683,7 @@ fn main() {
         "simulated_time_ms": "n/a: no clock is read",
         "real_components": ["zeep_lib::reader::{Files, FilesToRead, XmlReader::read_xml}", "zeep_lib::utils::read_input_file_and_xsd_files_at_path", "the write_xml tree", "the zeep binary (process tier)"],
         "stub_components": ["entropy (getrandom) and readdir order via libverifsim.so"],
+        "batch_digest": format!("{:016x}", stats.digest),
         "determinism_selfcheck": {"runs_repeated": slice.len(), "worker_counts": [simkernel::workers(), 3], "mismatches": mism},
         "differing_outputs_before_dedup": stats.found.len(), "differing_process_pairs": proc_findings.len(),
     });
